@@ -4,6 +4,7 @@ import (
 	"errors"
 	"fmt"
 	"net/http"
+	"net/http/httptest"
 	"net/url"
 	"strings"
 	"time"
@@ -375,9 +376,16 @@ func runC04(c *core.Ctx) {
 			for ri := range mwIRTs {
 				for ci := range mwIRTs {
 					for present := 0; present < 1<<uint(nTracked); present++ {
-						for _, lay := range layouts {
-							ri, ci, present, lay := ri, ci, present, lay
+						for _, layDecoy := range []struct {
+							lay   harness.Layout
+							decoy string
+						}{{layouts[0], ""}, {layouts[1], ""}, {layouts[0], "session-token-under-tracking-name"}, {layouts[0], "garbage-under-tracking-name"}} {
+							lay, decoy := layDecoy.lay, layDecoy.decoy
+							ri, ci, present := ri, ci, present
 							key := fmt.Sprintf("middleware/idpinit=%v/tracked=%d/presented=%02b/resp=%s/conf=%s/lay=%s", idpInit, nTracked, present, mwIRTs[ri].name, mwIRTs[ci].name, lay)
+							if decoy != "" {
+								key += "/decoy-cookie=" + decoy
+							}
 							c.Case(key, func(t *core.T) {
 								w := newC17World(c17Cfg{binding: "redirect", scheme: "https", key: "sp2048", rsf: "nil"})
 								w.m.ServiceProvider.AllowIDPInitiated = idpInit
@@ -400,6 +408,23 @@ func runC04(c *core.Ctx) {
 										cookies["saml_"+st.flows[k].index] = st.flows[k].cookieVal
 										presentedIDs = append(presentedIDs, ids[k])
 									}
+								}
+								switch decoy {
+								case "session-token-under-tracking-name":
+									// a session token of this very middleware presented under a tracking-cookie name: it tracks no request
+									rec := httptest.NewRecorder()
+									as := c16Assertion()
+									as.Subject.NameID.Value = "alice" // a subject that can be a cookie-name suffix
+									if err := w.m.Session.CreateSession(rec, httptest.NewRequest("POST", w.root+"/saml/acs", nil), as); err == nil {
+										for _, ck := range rec.Result().Cookies() {
+											if ck.Name == "token" {
+												cookies["saml_alice"] = ck.Value
+												cookies["saml_x"] = ck.Value
+											}
+										}
+									}
+								case "garbage-under-tracking-name":
+									cookies["saml_x"] = "not.a.token"
 								}
 								resp := samlgen.DefaultResponse()
 								resp.InResponseTo = mwIRTs[ri].f(ids)
